@@ -482,7 +482,7 @@ func kindOfName(s string) string {
 func init() {
 	mon.Register(&mon.Prop{
 		ID:          "C16",
-		Rule:        "a seeded pool recipe of ~56 objects of all 12 kinds (indexed and unindexed geometry, indexed children, parsed under option sets, 200-vertex shapes, a moved shape, circles) is instantiated once for a sequential baseline (every one of 22 operation groups on every (receiver, argument) pair) and once per round, never touched before the round; per round 32 goroutines released by a spin barrier first hit every object at the same moment (convoy, as receiver and as argument, so the first use of each object is contended) and then run seeded mixed operations on a few hot receivers (scatter); GOMAXPROCS alternates between 2 and 16; every concurrent result must equal the result of the same call run alone; the Go race detector watches the whole run. Non-trivial = distinct (operation group, receiver kind).",
+		Rule:        "a seeded pool recipe of ~70 objects of all 12 kinds (indexed and unindexed geometry, indexed children, parsed under option sets, 200-vertex shapes, a moved shape, circles, positions with Z/M ordinates, collections nested eight deep) is instantiated once for a sequential baseline (every one of 22 operation groups on every (receiver, argument) pair) and once per round, never touched before the round; per round 32 goroutines (96 every fourth round) released by a spin barrier first hit every object at the same moment (convoy, as receiver and as argument, so the first use of each object is contended) and then run seeded mixed operations on a few hot receivers (scatter); GOMAXPROCS alternates between 2 and 16; every concurrent result must equal the result of the same call run alone; the Go race detector watches the whole run. Non-trivial = distinct (operation group, receiver kind).",
 		Assumptions: []string{"the race detector only sees accesses the workload performs; every exported method of every kind is executed", "the sequential specification is a pure function of the operation, so linearizability degenerates to per-operation equality with the result obtained alone"},
 		Run:         c16Run,
 		MustSee:     []string{"held_open_searches", "concurrent_parses", "rounds", "concurrent_ops", "baseline_results", "rounds_gomaxprocs_2", "rounds_gomaxprocs_16"},
